@@ -23,6 +23,13 @@ Theorem C18_choice_uniform : forall (A : Type) (l : list A) d i, one_of l = Some
 Proof. exact one_of_uniform. Qed.
 Print Assumptions C18_choice_uniform.
 
+(* the same law seen through residue classes of the index (how sources of millions of members are
+   compared with the code): class r modulo m has probability #{i < length l : i mod m = r} / length l *)
+Theorem C18_choice_uniform_classes : forall (A : Type) (l : list A) d m r, one_of l = Some d -> (0 < m)%nat -> (r < m)%nat ->
+  prob d (fun i => (i mod m =? r)%nat) == qnat (class_count (length l) m r) / qnat (length l).
+Proof. exact one_of_class_prob. Qed.
+Print Assumptions C18_choice_uniform_classes.
+
 Theorem C18_empty_rejected : forall A : Type, @one_of A [] = None.
 Proof. exact one_of_empty_rejected. Qed.
 Print Assumptions C18_empty_rejected.
